@@ -614,7 +614,9 @@ impl PacketReceiver for IceConn {
                                 *probation_guard = None; // drop state
                                 drop(probation_guard);
 
-                                if win_addr != current_remote {
+                                // `current_remote` is stale here: this packet's
+                                // source may just have been stored above.
+                                if win_addr != *self.remote_addr.read() {
                                     *self.remote_addr.write() = win_addr;
                                 }
                                 self.rtp_latched.store(true, Ordering::Relaxed);
